@@ -2795,7 +2795,6 @@ def tables_c04(run):
         ('pose2d:SE2.Twist2', 'twist of a pose', ['Twist2(self.log(twist=True))'], 'return'),
         ('pose2d:SO2.SE2', 'SO2 -> SE2 embedding', ['SE2(rt2tr(self.A, [0, 0]))'], 'return'),
         ('pose3d:SE3.SO3', 'SO3 -> SE3 embedding', ['cls(r2t(R))'], 'return'),
-        ('DualQuaternion:UnitDualQuaternion.SE3', 'pose of a unit dual quaternion', ['SE3(rt2tr(q2r(self.real.A), (2 * self.dual * self.real.conj()).v))'], 'return'),
     ], rule=rule)
     # UnitQuaternion from matrices / objects: r2q of the rotation part
     f = run.prog.func('quaternion:UnitQuaternion.__init__')
@@ -2834,18 +2833,7 @@ def tables_c04(run):
             run.violation(rule, key, 'double cover', 'unit quaternions are compared without unitq=True: q and -q (the same rotation) compare unequal', f=g)
         else:
             run.error('R13: %s: unrecognised form' % key)
-    # unit dual quaternion from SE3
-    g = run.prog.func('DualQuaternion:UnitDualQuaternion.__init__')
-    gi = FuncInfo.of(g)
-    vals = {}
-    for st in own_walk(g.node):
-        if isinstance(st, ast.Assign) and isinstance(st.targets[0], ast.Attribute):
-            vals.setdefault(st.targets[0].attr, []).append(canon(gi, st.value))
-    nmq = Normaliser(noncomm=True)
-    okr = any(matches('UnitQuaternion(real.R)', e) is not None for e in vals.get('real', []))
-    okd = any(nmq.poly(e) == nmq.poly(parse_expr('0.5 * Quaternion.Pure(real.t) * UnitQuaternion(real.R)')) for e in vals.get('dual', []))
-    (run.holds if okr else run.violation)(rule, g.key, 'real part', 'real = UnitQuaternion(T.R)' if okr else 'real part is not UnitQuaternion(T.R)', f=g)
-    (run.holds if okd else run.violation)(rule, g.key, 'dual part', 'dual = 0.5 * Pure(T.t) * real' if okd else 'dual part is not 0.5 * Pure(T.t) * real (operand order matters)', f=g)
+    check_udq_construction(run, rule=rule)
     check_pair_integrity(run, rule=rule)
     # SE2 -> SE3 lift table
     g = run.prog.func('pose2d:SE2.SE3.<locals>.lift3')
@@ -2863,6 +2851,13 @@ def tables_c04(run):
     ok = alloc is not None and matches('eye(4)', alloc) is not None and tbl == want
     (run.holds if ok else run.violation)(rule, g.key, 'lift table', 'y = eye(4); rotation block, translation column, z' if ok else 'SE2 -> SE3 lift writes %s, expected %s on eye(4)' % (tbl, want), f=g)
 
+
+
+def check_udq_construction(run, rule='R13'):
+    """unit dual quaternion from SE3: real = r, dual = 1/2 t r -- the convention the point route (R22) and the product are composed over;
+    SE3() reads the translation back as 2 d r~.  Decided in the non-commutative quaternion algebra (r22_dualquat.check_pose_pair)."""
+    from .r22_dualquat import check_pose_pair
+    check_pose_pair(run, rule=rule)
 
 
 def check_pair_integrity(run, rule='R13'):
